@@ -197,7 +197,7 @@ pub fn run(report: &Report, thorough: bool) -> Evidence {
                         let got = match &out {
                             Ok(Out::Sugg(r)) => r.text(),
                             _ => {
-                                report.add(Violation::new("C12", "panic", "panic:class-sweep").opts(&ctx.opts).feat("pre", crate::bn::esc(&pre.buf)).events(&[ev.clone()]).detail(format!("{:?} on synthetic state {:?}", out, pre.buf)));
+                                report.add(Violation::new("C12", "panic", "panic:class-sweep").opts(&ctx.opts).feat("pre", crate::bn::esc(&pre.buf)).origin(&pre.buf, "", 0).events(&[ev.clone()]).detail(format!("{:?} on synthetic state {:?}", out, pre.buf)));
                                 continue;
                             }
                         };
@@ -207,7 +207,7 @@ pub fn run(report: &Report, thorough: bool) -> Evidence {
                                     Violation::new("C12", "ref-step-mismatch", &format!("sweep:{}:after-{}", crate::bn::esc(&values[sym]), crate::bn::esc(&c.to_string())))
                                         .opts(&ctx.opts)
                                         .feat("pre", crate::bn::esc(&pre.buf))
-                                        .feat("synthetic_state", "true")
+                                        .origin(&pre.buf, "", 0)
                                         .events(&[ev.clone()])
                                         .detail(format!("composition {:?} (state set directly) + key value {:?} gave {:?}, rule chain says {:?}", pre.buf, values[sym], got, exp)),
                                 );
